@@ -26,6 +26,7 @@ extend_error_class extend_shortcut_unchecked pc_availability pc_rejects_iff
 pc_availability_agrees_with_cache pc_infidelity_identity_component deriv_shape_rejects_iff
 cumulant_rejects_iff convergence_rejects_iff'''.split()
 LEAN_MODULES = ['FFVerif.Props.C20']
+PINS = ['pinParseArgs', 'pinParseHamiltonian', 'pinParseOperators', 'pinParseSpectrum', 'pinGetIndices']
 GEN_SITES = ['options']
 COMPONENTS = ['validate_args', 'validate_spectrum', 'validate_identifiers', 'validate_extend',
               'validate_concat', 'validate_basis', 'validate_remap', 'validate_pc',
